@@ -107,6 +107,70 @@ pub enum Mutn {
     Enum(String),
     /// unknown entry inserted into a lenient list at index
     ListEntry(String, usize, usize),
+    /// the string at path spelled with JSON escapes (how 0: every character as \uXXXX, 1: the first
+    /// and last character only, 2: an escaped solidus and a \u-escaped first letter in upper-case hex) -
+    /// the same JSON value, which a parser cannot hand out as a slice of its input
+    Escaped(String, u8),
+}
+const ESC_MARK: char = '\u{E000}';
+/// Serialise; strings marked by the Escaped presentation are written with escapes.
+fn render(doc: &Value) -> String {
+    let text = doc.to_string();
+    if !text.contains(ESC_MARK) {
+        return text;
+    }
+    // a marked string is "<mark><how digit><content>"
+    let mut out = String::new();
+    let mut rest = text.as_str();
+    while let Some(i) = rest.find(ESC_MARK) {
+        out.push_str(&rest[..i]);
+        let after = &rest[i + ESC_MARK.len_utf8()..];
+        let how = after.as_bytes()[0] - b'0';
+        let body_start = 1;
+        // the string ends at the next unescaped quote (contents here never contain quotes or backslashes)
+        let end = after.find('"').unwrap_or(after.len());
+        let body: Vec<char> = after[body_start..end].chars().collect();
+        for (k, ch) in body.iter().enumerate() {
+            let esc = match how {
+                0 => true,
+                1 => k == 0 || k + 1 == body.len(),
+                _ => k == 0,
+            };
+            if *ch == '/' && how == 2 {
+                out.push_str("\\/");
+            } else if esc {
+                let mut buf = [0u16; 2];
+                for u in ch.encode_utf16(&mut buf) {
+                    if how == 2 {
+                        out.push_str(&format!("\\u{:04X}", u));
+                    } else {
+                        out.push_str(&format!("\\u{:04x}", u));
+                    }
+                }
+            } else {
+                out.push(*ch);
+            }
+        }
+        rest = &after[end..];
+    }
+    out.push_str(rest);
+    out
+}
+fn string_paths(v: &Value, at: &str, out: &mut Vec<String>) {
+    match v {
+        Value::String(s) if !s.is_empty() && !s.contains(['"', '\\']) => out.push(at.to_string()),
+        Value::Array(a) => {
+            for (i, x) in a.iter().enumerate() {
+                string_paths(x, &format!("{at}/{i}"), out);
+            }
+        }
+        Value::Object(o) => {
+            for (k, x) in o {
+                string_paths(x, &format!("{at}/{k}"), out);
+            }
+        }
+        _ => {}
+    }
 }
 
 #[derive(Clone, Debug, Serialize, Deserialize, PartialEq, Eq, Hash)]
@@ -201,6 +265,13 @@ fn apply(doc: &mut Value, exp: &mut Value, m: &Mutn) -> bool {
             remove_path(exp, path);
             true
         }
+        Mutn::Escaped(path, how) => match doc.pointer_mut(path) {
+            Some(Value::String(st)) if !st.is_empty() && !st.starts_with(ESC_MARK) => {
+                *st = format!("{ESC_MARK}{how}{st}");
+                true
+            }
+            _ => false,
+        },
         Mutn::ListEntry(path, which, idx) => {
             let kind = if doc.pointer("/publicKey/rp").is_some() { "create" } else { "get" };
             let entry = lenient_lists(kind).into_iter().filter(|(p, _)| p == path).nth(*which).map(|x| x.1);
@@ -228,7 +299,20 @@ fn parse_debug(kind: &str, text: &str) -> Result<Result<String, String>, String>
             match (&a, &b, &c) {
                 (Err(_), _, _) => a,
                 (Ok(x), Ok(y), Ok(z)) if x == y && y == z => a,
-                _ => Ok(format!("ROUTES-DISAGREE from_str={} from_value={} from_reader={}", a.map(|s| s.len().to_string()).unwrap_or_else(|e| e), b.map(|s| s.len().to_string()).unwrap_or_else(|e| e), c.map(|s| s.len().to_string()).unwrap_or_else(|e| e))),
+                _ => {
+                    let show = |r: &Result<String, String>, base: &str| match r {
+                        Err(e) => format!("error: {e}"),
+                        Ok(s) => {
+                            let i = s.bytes().zip(base.bytes()).position(|(x, y)| x != y).unwrap_or(s.len().min(base.len()));
+                            let from = i.saturating_sub(40);
+                            format!("...{}", &s[s.floor_char_boundary(from)..s.floor_char_boundary((i + 60).min(s.len()))])
+                        }
+                    };
+                    let base = a.clone().unwrap_or_default();
+                    let other = if b.as_ref().ok() != Some(&base) { &b } else { &c };
+                    let basis = other.clone().unwrap_or_default();
+                    Ok(format!("ROUTES-DISAGREE from_str [{}] from_value [{}] from_reader [{}]", show(&a, &basis), show(&b, &base), show(&c, &base)))
+                }
             }
         }
         if kind == "create" {
@@ -245,6 +329,7 @@ fn mut_class(m: &Mutn) -> String {
         Mutn::Numeric(p, h) => format!("numeric:{}:{}", p.rsplit('/').next().unwrap_or(""), ["number", "string", "float", "float-string"][*h as usize % 4]),
         Mutn::Unknown(_, _, k) => format!("unknown-member:{}", ["scalar", "object", "array"][*k as usize % 3]),
         Mutn::Enum(p) => format!("unknown-enum:{}", p.rsplit('/').next().unwrap_or("")),
+        Mutn::Escaped(p, h) => format!("escaped-string:{}:{}", p.rsplit('/').next().unwrap_or(""), ["all", "ends", "solidus-and-first"][*h as usize % 3]),
         Mutn::ListEntry(p, w, _) => {
             let list = p.rsplit('/').next().unwrap_or("");
             if list == "pubKeyCredParams" {
@@ -284,11 +369,17 @@ pub fn eval(c: &Case) -> (Vec<Finding>, String) {
             return (fs, class);
         }
     };
-    match parse_debug(&c.kind, &doc.to_string()) {
+    if want.starts_with("ROUTES-DISAGREE") {
+        bad("kind=parse-routes-disagree/canonical", format!("the canonical presentation parses to different values from borrowed text, from an owned value and from a reader: {want}"));
+        return (fs, class);
+    }
+    match parse_debug(&c.kind, &render(&doc)) {
         Err(p) => bad(&format!("kind=panic/{key_class}"), format!("parse panicked: {p}")),
         Ok(Err(e)) => bad(&format!("kind=parse-fails/{key_class}"), format!("{class}: {e}")),
         Ok(Ok(got)) => {
-            if got != want {
+            if got.starts_with("ROUTES-DISAGREE") {
+                bad(&format!("kind=parse-routes-disagree/{key_class}"), format!("{class}: {got}"));
+            } else if got != want {
                 bad(&format!("kind=parses-to-different-value/{key_class}"), format!("{class}: {} vs canonical {}", &got[..got.len().min(300)], &want[..want.len().min(300)]));
             }
         }
@@ -319,6 +410,13 @@ fn single_mutations(kind: &str) -> Vec<Mutn> {
     }
     for p in enum_paths(kind) {
         v.push(Mutn::Enum(p.into()));
+    }
+    let mut sp = vec![];
+    string_paths(&canonical(kind), "", &mut sp);
+    for p in sp {
+        for how in 0..3u8 {
+            v.push(Mutn::Escaped(p.clone(), how));
+        }
     }
     let lists = lenient_lists(kind);
     let mut seen: std::collections::BTreeMap<&str, usize> = Default::default();
@@ -890,7 +988,7 @@ pub fn run(ctx: &Ctx) -> Result<Run, String> {
     }
     let mut run = Run::from_stats(
         "exploration",
-        "creation and request options: all 256 presence patterns of the optional members x one presentation change at a time (each binary member as array / base64url +- padding / base64 +- padding, timeout and alg as number / numeric string / integral float / float string, an unknown scalar/object/array member at every position of every object, an unknown string for every enumeration, an unknown entry at every index of every lenient list incl. pubKeyCredParams entries with an unknown alg in every member order and with trailing unknown members); thorough: all pairs of changes on the full document. Every document is parsed through three routes (borrowed text, an owned serde_json::Value, a byte reader) which must agree. Oracle: Debug of the parsed value equals that of the canonical presentation (unknown enum = member absent, unknown list entry = entry absent). Long binary members: a challenge of 255..100000 bytes in each of the five presentations parses to the same value. Named unknown members: every identifier-like string literal of the types and client crates (and near-miss spellings of the declared names) as the name of an undeclared member of every object, with seven value shapes, and standing in for each declared member of that object (it must stay ignored; the one spelling the pinned tree documents, allowList, is exempt). Plus base64url encode/decode identity on all byte strings up to length 2 (3 thorough) and patterned lengths 4..64 against an own RFC 4648 codec; every credential emitted by 72 register+authenticate ceremonies re-parsed from its JSON; CollectedClientData member order for 3 extra-data types x 16 orders of 0..3 unknown members x crossOrigin x type, and the client data emitted by Client::register/authenticate for five caller-supplied extras with a standard member's name at each position. Non-trivial = distinct case with at least one presentation change / non-empty input",
+        "creation and request options: all 256 presence patterns of the optional members x one presentation change at a time (each binary member as array / base64url +- padding / base64 +- padding, timeout and alg as number / numeric string / integral float / float string, an unknown scalar/object/array member at every position of every object, an unknown string for every enumeration, every string value spelled with JSON escapes (all characters, first and last, an escaped solidus plus upper-case hex) - the same JSON value, an unknown entry at every index of every lenient list incl. pubKeyCredParams entries with an unknown alg in every member order and with trailing unknown members); thorough: all pairs of changes on the full document. Every document is parsed through three routes (borrowed text, an owned serde_json::Value, a byte reader) which must agree (a disagreement is a finding of its own). Oracle: Debug of the parsed value equals that of the canonical presentation (unknown enum = member absent, unknown list entry = entry absent). Long binary members: a challenge of 255..100000 bytes in each of the five presentations parses to the same value. Named unknown members: every identifier-like string literal of the types and client crates (and near-miss spellings of the declared names) as the name of an undeclared member of every object, with seven value shapes, and standing in for each declared member of that object (it must stay ignored; the one spelling the pinned tree documents, allowList, is exempt). Plus base64url encode/decode identity on all byte strings up to length 2 (3 thorough) and patterned lengths 4..64 against an own RFC 4648 codec; every credential emitted by 72 register+authenticate ceremonies re-parsed from its JSON; CollectedClientData member order for 3 extra-data types x 16 orders of 0..3 unknown members x crossOrigin x type, and the client data emitted by Client::register/authenticate for five caller-supplied extras with a standard member's name at each position. Non-trivial = distinct case with at least one presentation change / non-empty input",
         true,
         stats,
     );
